@@ -132,15 +132,16 @@ fn main() {
         }).collect();
         let input = format!("w={} h={} (h while moving: {}) reverse={} tabstop={} no_hscroll={} keep_right={} reader_items={} items={:?} ranges={:?} ops={:?}", width, height, height0, reverse, tabstop, no_hscroll, keep_right, use_reader, texts, mrs, ops);
 
+        let rev_list = r.chance(1, 2);   // both reverse layouts put the first result on the top row of the list area
         let rerun = r.chance(1, 5);
         let rerun_keep = r.chance(1, 2);
-        let input = format!("{} rerun={} {}", input, rerun, rerun_keep);
+        let input = format!("{} rerun={} {} reverse-list={}", input, rerun, rerun_keep, rev_list);
         let (texts2, mrs2, ops2) = (texts.clone(), mrs.clone(), ops.clone());
         let res = guarded(AssertUnwindSafe(move || {
             let ts = tabstop.to_string();
             let options = SkimOptionsBuilder::default()
                 .multi(true)
-                .layout(if reverse { "reverse" } else { "default" })
+                .layout(if reverse { if rev_list { "reverse-list" } else { "reverse" } } else { "default" })
                 .tabstop(Some(&ts))
                 .no_hscroll(no_hscroll)
                 .keep_right(keep_right)
